@@ -154,7 +154,53 @@ def division_family(wbits, maxlen, rng, count):
 ALIAS_BIN = [0, 1, 2, 3, 4]
 
 
-def gen_cases(wbits, digs, rng, tier):
+def capacity_cases(wbits, digs, cap, rng):
+    """Results at the PHYSICAL capacity of a bn (cap digits): exactly cap digits must be computed or refused,
+    cap + 1 digits must be refused (never stored) - carries out of the top digit, sub-digit shifts that spill
+    into digit cap + 1, products of i x j digits with i + j in {cap, cap + 1}."""
+    W = wbits
+    ones = lambda n: (1 << (W * n)) - 1
+    top = lambda n: 1 << (W * n - 1)
+    out = []
+    # shifts: operand of u digits, result length around cap digits, with and without a carry out of the top digit
+    for u in (1, 2, digs, cap - 1):
+        for a in (ones(u), top(u) + 1, (1 << (W * (u - 1))) | 1, top(u) | (top(u) >> 1) | 1):
+            for rb in (W * cap - 1, W * cap, W * cap + 1, W * cap + W // 2, W * cap + W - 1, W * cap + W):
+                k = rb - a.bit_length()
+                if k >= 0:
+                    for sg in (1, -1):
+                        out.append("bn_lsh %d %s %d" % (rng.choice([0, 1]), hx(sg * a), k))
+    # additions / doublings / digit forms that carry out of digit cap
+    for a in (ones(cap), ones(cap) - 1, top(cap), top(cap) + 1, ones(cap - 1), top(cap) - 1):
+        for b in (1, 2, ones(1), ones(cap), top(cap), a):
+            out.append("bn_add %d %s %s" % (rng.choice(ALIAS_BIN), hx(a), hx(b)))
+            out.append("bn_sub %d %s %s" % (rng.choice(ALIAS_BIN), hx(a), hx(-b)))
+            out.append("bn_sub %d %s %s" % (rng.choice(ALIAS_BIN), hx(-a), hx(b)))
+        out.append("bn_dbl %d %s" % (rng.choice([0, 1]), hx(a)))
+        out.append("bn_dbl %d %s" % (rng.choice([0, 1]), hx(-a)))
+        for d in (1, 2, ones(1), 1 << (W - 1)):
+            out.append("bn_add_dig %d %s %x" % (rng.choice([0, 1]), hx(a), d))
+            out.append("bn_sub_dig %d %s %x" % (rng.choice([0, 1]), hx(-a), d))
+            out.append("bn_mul_dig %d %s %x" % (rng.choice([0, 1]), hx(a), d))
+    # products and squares whose length is cap - 1, cap or cap + 1 digits
+    for i in (1, 2, cap // 2 - 1, cap // 2, cap // 2 + 1, cap - 2, cap - 1):
+        for j in (cap - i - 1, cap - i, cap - i + 1):
+            if j < 1:
+                continue
+            for (x, y) in ((ones(i), ones(j)), (top(i), top(j)), (1 << (W * (i - 1)), 1 << (W * (j - 1))),
+                           (ones(i), 1 << (W * (j - 1)))):
+                for op in ("bn_mul", "bn_mul_basic", "bn_mul_comba", "bn_mul_karat"):
+                    out.append("%s %d %s %s" % (op, rng.choice(ALIAS_BIN), hx(x), hx(y)))
+    for i in (cap // 2 - 1, cap // 2, cap // 2 + 1):
+        for x in (ones(i), top(i), 1 << (W * (i - 1)), 1 << (W * i - W // 2)):
+            for op in ("bn_sqr", "bn_sqr_basic", "bn_sqr_comba", "bn_sqr_karat"):
+                out.append("%s %d %s" % (op, rng.choice([0, 1]), hx(x)))
+    for k in (W * cap - 1, W * cap, W * cap + 1, W * (cap + 1)):
+        out.append("bn_set_2b 1 %s %d" % (hx(1), k))
+    return out
+
+
+def gen_cases(wbits, digs, rng, tier, cap=None):
     """Returns list of case lines (strings) for drv_bn."""
     quick = tier == "quick"
     maxlen = digs + 1          # one beyond the configured precision
@@ -238,6 +284,8 @@ def gen_cases(wbits, digs, rng, tier):
         for a in [0, 1, -1, 5, -5, (1 << wbits) - 1, -(1 << (2 * wbits))]:
             for b in [0, 1, -1, 2, -2, 7, -7, 1 << wbits, -(1 << wbits) - 1]:
                 cases.append("bn_div_rem %d %s %s" % (al, hx(a), hx(b)))
+    if cap:
+        cases += capacity_cases(wbits, digs, cap, rng)
     rng.shuffle(cases)
     return cases, stats
 
